@@ -15,9 +15,11 @@ ID = "C06"
 def gen(rng, tier):
     ctx = G.Ctx(rng)
     names = sorted(G.OPS)
-    ctx.enabled = G.swarm_subset(rng, names, 0.7, always=("from_array", "rechunk", "getitem", "binary"))
+    ctx.enabled = G.swarm_subset(rng, names, 0.7, always=("from_array", "rechunk", "getitem", "binary", "map_blocks"))
     ctx.weights = {"random": 0.5, "rechunk": 5.0, "getitem": 6.0, "from_array": 5.0, "binary": 3.0, "map_blocks": 1.5}
     ctx.p_auto_chunks = rng.choice([0.2, 0.5, 0.8])
+    ctx.p_closure_fn = rng.choice([0.25, 0.6])
+    ctx.weights["map_blocks"] = rng.choice([1.0, 3.0])
     ctx.p_random_twin = 0.5
     ctx.weights["random"] = rng.choice([0.5, 4.0, 12.0])
     ctx.p_simsource = rng.choice([0.0, 0.3])
@@ -34,6 +36,12 @@ def gen(rng, tier):
     rnd = [s_["out"] for s_ in recipe["steps"] if s_["op"] == "random"]
     if len(rnd) >= 2 and rng.random() < 0.8:
         for v in rnd[:4]:
+            if v not in targets:
+                targets.append(v)
+    # sibling closures (one factory, other captured value, same input) must meet in one process too
+    clo = [s_["out"] for s_ in recipe["steps"] if s_["op"] == "map_blocks" and s_["args"].get("fn") == "closure"]
+    if len(clo) >= 2 and rng.random() < 0.8:
+        for v in clo[:3]:
             if v not in targets:
                 targets.append(v)
     knobs = {"slice_limit": rng.choice([None, 0, 64, 4096])}
@@ -195,6 +203,7 @@ def execute(case, stats, log):
         fa._NUMPY_SLICE_PUSHDOWN_NBYTES_LIMIT = case["knobs"]["slice_limit"]
     m.all_values = {}
     reg = Registry(stats)
+    name_of_program = {}
     for i, ev in enumerate(case["history"]):
         var = ev.get("var")
         if ev["ev"] == "compute_many":
@@ -247,6 +256,25 @@ def execute(case, stats, log):
         for v in sorted(m.pool):
             for node in _nodes_of(m.pool[v]):
                 reg.see_node(node, f"{v} after {where}")
+        # (d) substitution: two DIFFERENT programs of the recipe whose collections carry one name although
+        #     the programs, each built alone in the pristine phase, compute different arrays -- name-keyed
+        #     dedup (the singleton registry first of all) has then handed one program the other's node
+        if ev["ev"] == "build":
+            o = m.origin.get(var)
+            pr = m.pristine.get(o)
+            if pr and pr["error"] is None and not m._volatile(o):
+                nm = m.pool[var].name
+                for o2, n2 in sorted(name_of_program.items()):
+                    pr2 = m.pristine.get(o2)
+                    if o2 == o or n2 != nm or not pr2 or pr2["error"] is not None:
+                        continue
+                    stats["probe.programs_sharing_a_name"] = stats.get("probe.programs_sharing_a_name", 0) + 1
+                    r = same_value(pr["value"], pr2["value"])
+                    if r:
+                        raise Violation(ID, "same-name-different-programs",
+                                        f"event {i}: programs {o2} and {o} both carry the name {m.nm(nm)} but, built alone, "
+                                        f"compute different arrays: {r}", step=i)
+                name_of_program[o] = nm
 
 
 candidates = c09.candidates
